@@ -53,6 +53,7 @@ Generate Absolute Chords
    * dominant_ninth
  * Elevenths
    * minor_eleventh
+   * major_eleventh
    * eleventh
  * Thirteenths
    * minor_thirteenth
@@ -154,6 +155,7 @@ chord_shorthand_meaning = {  # Triads Augmented chords Suspended chords Sevenths
     "m9": " minor ninth",
     "7#11": " lydian dominant seventh",
     "m11": " minor eleventh",
+    "M11": " major eleventh",
     "M13": " major thirteenth",
     "m13": " minor thirteenth",
     "13": " dominant thirteenth",
@@ -439,6 +441,16 @@ def minor_eleventh(note):
     ['C', 'Eb', 'G', 'Bb', 'F']
     """
     return minor_seventh(note) + [intervals.perfect_fourth(note)]
+
+
+def major_eleventh(note):
+    """Build a major eleventh chord on note.
+
+    Example:
+    >>> major_eleventh('C')
+    ['C', 'E', 'G', 'B', 'D', 'F']
+    """
+    return major_ninth(note) + [intervals.perfect_fourth(note)]
 
 
 def minor_thirteenth(note):
@@ -827,7 +839,7 @@ def from_shorthand(shorthand_string, slash=None):
 
     Ninths: '9' or 'add9', 'M9', 'm9', '7b9', '7#9'
 
-    Elevenths: '11' or 'add11', '7#11', 'm11'
+    Elevenths: '11' or 'add11', '7#11', 'm11', 'M11'
 
     Thirteenths: '13' or 'add13', 'M13', 'm13'
 
@@ -1381,6 +1393,7 @@ chord_shorthand = {  # Triads Augmented chords Suspended chords Sevenths Sixths
     "m9": minor_ninth,
     "7#11": lydian_dominant_seventh,
     "m11": minor_eleventh,
+    "M11": major_eleventh,
     "M13": major_thirteenth,
     "m13": minor_thirteenth,
     "13": dominant_thirteenth,
